@@ -764,6 +764,8 @@ func calAndSetEventNode(e *Expr) {
 		)
 		return func(ctx *Ctx, params []Value) (res Value, err error) {
 			res, err = op(ctx, params)
+			// params may alias a buffer the engine reuses for the next operator
+			params = append([]Value(nil), params...)
 			e.EventChan <- Event{
 				EventType: OpExecEvent,
 				Data: OpEventData{
